@@ -13,7 +13,7 @@ EXPLANATION = (
     "successful write passes the rotation check whose true edge sends the rotation request; the handler of that request reaches blob "
     "replacement. L6: the wait-for graph has no armed cycle (same engine as C08.D1). Decides these liveness preconditions, not "
     "bounded-time completion.")
-EXPLANATION += (" " + 'L10 in a loop resumed with .skip(progress) the per-element fallible call is only reached with progress advanced, or .skip is not reachable again from its completion without the advance; L11 every non-None store into deferred_index_dump_info / update_last_time is followed (or preceded on every path) by update_deadline before the handler returns; L12 = C12.S10 for every background task.')
+EXPLANATION += (" " + 'L10 in a loop resumed with .skip(progress) the per-element fallible call is only reached with progress advanced, or .skip is not reachable again from its completion without the advance; L11 every non-None store into deferred_index_dump_info is followed (or preceded on every path) by update_deadline before the handler returns; L12 = C12.S10 for every background task.')
 ASSUMPTIONS = ["panics inside callee modules (expect on poisoned std locks etc.) are outside L1: only diverging calls written in storage/observer_worker.rs are armed"]
 
 WORKER_FILE = 'src/storage/observer_worker.rs'
@@ -411,9 +411,10 @@ def l8(ctx, rid):
 
 
 def l11(ctx, rid):
-    """whenever the worker registers or refreshes the deferred index-dump event (a non-None store into
-    `deferred_index_dump_info`, DeferredEventData::update_last_time) the deadline is armed before the handler returns:
-    the deadline is reset to None each time it is reached, and only an armed deadline makes the worker look at the event"""
+    """whenever the worker registers the deferred index-dump event (a non-None store into `deferred_index_dump_info`) the
+    deadline is armed in the same handler: the deadline is reset to None each time it is reached, and only an armed deadline
+    makes the worker look at the event again.  (A mere refresh of last_time needs no arming: the invariant "event registered =>
+    deadline armed" already holds and the handler of a reached deadline re-arms when the event is not yet due.)"""
     prog = ctx.prog
     L, E = prog.may_reach()
     n = 0
@@ -436,9 +437,6 @@ def l11(ctx, rid):
                     if r['k'] == 'agg' and r.get('adt') != 'std::option::Option':
                         continue    # construction of the worker itself
                     regs.append((i, 'registered'))
-        for c in f.calls:
-            if c.bb in f.reachable() and c.name == 'update_last_time' and c.t['t'] is not None:
-                regs.append((c.t['t'], 'refreshed'))
         if not regs:
             continue
         arms = []
@@ -472,7 +470,7 @@ def l11(ctx, rid):
                         witness=['bb%d %s' % (b, f.where(b)) for b in (f.path([bb], loose, avoid_exit=arms, avoid_enter=none_edges) or [])])
             else:
                 ctx.ok(rid, key, f.where(bb), 'update_deadline on every path to the return')
-    if n < 3:
+    if n < 2:
         raise core.AnchorLost('registrations of the deferred event: %d' % n)
 
 
@@ -530,6 +528,13 @@ def l12(ctx, rid):
     c12.s10(ctx, rid, only_sync=False)
 
 
+def l13(ctx, rid):
+    """closing a blob merges its filter into the closed list inside the worker: a merge of incompatible filters must be declined
+    (return false), not reach an `expect` - a panic there ends the worker task (C10.B10 instances)"""
+    import props.c10 as c10
+    c10.b10(ctx, rid)
+
+
 RULES = [
     Rule('C13.L1', 'the worker loop is only left through the Stop arm (recv() == None) and contains no reachable panic written in the worker module', l1, 4),
     Rule('C13.L3', 'one channel, Sender never cloned, stored only in the Running state, dropped before the worker handle is awaited', l3, 4),
@@ -538,8 +543,9 @@ RULES = [
     Rule('C13.L6', 'no armed wait-for cycle involves the worker (same graph as C08.D1)', l6, 1),
     Rule('C13.L7', 'a deadline armed for deferred work is never wiped by a later reset in the same body', l7, 1),
     Rule('C13.L9', 'requests to the worker are sent with the waiting send (never dropped when the queue is full)', l9, 1),
-    Rule('C13.L11', 'every registration / refresh of the deferred index-dump event arms the worker deadline before the handler returns', l11, 3),
+    Rule('C13.L11', 'every registration of the deferred index-dump event arms the worker deadline in the same handler', l11, 2),
     Rule('C13.L10', 'a resumable maintenance loop advances its progress counter past an element whose processing failed', l10, 1),
     Rule('C13.L12', 'the worker skips starting a background task only while one is really running (decided by JoinHandle::is_finished)', l12, 2),
+    Rule('C13.L13', 'filters of different shape are never merged on the worker path (C10.B10 instances: the merge would panic inside the worker)', l13, 2),
     Rule('C13.L8', 'request-pending / in-progress flags are released on every path of their handler (C12.S8 instances)', l8, 1),
 ]
